@@ -879,14 +879,18 @@ package meta
 //@   props C07
 //@   nosafety
 //@   loop 1 invariant building: pb != nil && fresh(pb) && str(pb.Name) == ui.Name && str(pb.Hash) == ui.Hash && pbool(pb.Admin) == ui.Admin && (cap(pb.Privileges) == 0 || fresh(pb.Privileges))
+//@   loop 1 invariant a_message_per_privilege_seen: all(strk_, !visited(strk_)) || len(pb.Privileges) > 0
 //@   ensures carries_name_hash_and_admin_flag: result != nil && str(result.Name) == ui.Name && str(result.Hash) == ui.Hash && pbool(result.Admin) == ui.Admin
+//@   ensures privileges_are_not_dropped: len(result.Privileges) == 0 ==> all(strk_, !has(ui.Privileges, strk_))
 //@   modifies nothing
 //@ func (*UserInfo).unmarshal
 //@   props C07
 //@   nosafety
 //@   requires pb != nil
 //@   loop 1 invariant scalars_stay: ui.Name == str(pb.Name) && ui.Hash == str(pb.Hash) && ui.Admin == pbool(pb.Admin) && ui.Privileges != nil
+//@   loop 1 invariant a_key_per_message_seen: rangeindex + 1 > 0 ==> ex(strk_, has(ui.Privileges, strk_))
 //@   ensures restores_name_hash_and_admin_flag: ui.Name == str(pb.Name) && ui.Hash == str(pb.Hash) && ui.Admin == pbool(pb.Admin) && ui.Privileges != nil
+//@   ensures privileges_are_not_dropped: len(pb.Privileges) > 0 ==> ex(strk_, has(ui.Privileges, strk_))
 //@   modifies UserInfo.all
 
 // ---- C18: the destination of a shard copy is advertised as an owner only after the copy succeeded ----
